@@ -340,3 +340,96 @@ FAMILIES = [
            thorough=dict(causes=ALL, nested=True, late=False, real=True),
            bounds='as nested, exact rational dates'),
 ]
+
+
+def fam_shutdown_spawn(E, real=False):
+    """a task spawned into a scope *while it shuts down gracefully*: a helper waits for the end
+    of the scope's body (`await scope`) and then adds a further child.  The scope has a regular
+    child A or none at all when its body ends; the helper is a volatile child of the scope or a
+    foreign task that merely holds the scope object.  The late child is a child like any other:
+    the block ends only when it is done."""
+    b = E.num('b', 0, 20, real=real)
+    has_a = E.flag('has_a')
+    da = E.num('da', 0, 30, real=real) if has_a else None
+    dl = E.num('dl', 0, 20, real=real)
+    foreign = E.flag('foreign')
+    use_until = E.flag('until')
+    log = Log()
+    S = {}
+    never = Flag()
+
+    async def late():
+        log('L', 'start')
+        await (time + dl)
+        log('L', 'end')
+
+    async def child_a():
+        log('A', 'start')
+        await (time + da)
+        log('A', 'end')
+
+    async def helper():
+        while 'scope' not in S:
+            await instant
+        await S['scope']
+        log('H', 'body-done-seen')
+        payload = late()
+        try:
+            S['L'] = S['scope'].do(payload)
+            log('H', 'accepted')
+        except ScopeClosed:
+            log('H', 'refused', payload.cr_frame is None)
+        await eternity
+
+    async def owner():
+        scope = until(never) if use_until else Scope()
+        async with scope:
+            S['scope'] = scope
+            if has_a:
+                scope.do(child_a())
+            if not foreign:
+                scope.do(helper(), volatile=True)
+            await (time + b)
+            log('own', 'body-end')
+        log('own', 'left', bool(S['L'].done) if 'L' in S else None)
+
+    async def root():
+        async with Scope() as top:
+            top.do(owner())
+            if foreign:
+                top.do(helper(), volatile=True)
+
+    out = simulate(root(), log=log)
+    bad = classify_run_exception(out.exc, allowed=())
+    E.prove(bad is None, 'run-ends-normally', bad)
+    if out.exc is not None:
+        return
+    left = log.first('own', 'left')
+    if not E.prove(left is not None, 'block-left'):
+        return
+    for ev in log.events[log.pos(left) + 1:]:
+        E.prove(ev[0] not in ('L', 'A'), 'no-task-code-after-exit', ('%r', ev[:2]))
+    if log.has('H', 'accepted'):
+        E.reach('spawned-during-shutdown')
+        le = log.first('L', 'end')
+        E.prove(le is not None and log.pos(le) < log.pos(left), 'late-child-awaited',
+                ('the child accepted during the shutdown did not run to its end before the '
+                 'block was left at %r', left[2]))
+        E.prove(left[3] is True, 'all-tasks-done-after-exit')
+        want = MAX(b + dl, da) if has_a else b + dl
+        E.prove(EQ(left[2], want), 'exit-when-last-child-done',
+                ('left at %r, expected %r', left[2], want))
+        E.reach_if(True if not has_a else LE(da, b), 'no-regular-child-left-when-the-body-ends')
+    else:
+        rf = log.first('H', 'refused')
+        if rf is not None:
+            E.prove(rf[3] is True, 'refused-payload-closed')
+        E.prove(not log.has('L', 'start'), 'refused-payload-never-runs')
+
+
+FAMILIES.append(
+    Family('shutdown_spawn', fam_shutdown_spawn, quick=dict(), thorough=dict(real=True),
+           reach=['spawned-during-shutdown', 'no-regular-child-left-when-the-body-ends'],
+           bounds='Scope / until-scope whose body ends at b in [0,20] with one regular child '
+                  '(duration in [0,30]) or none; a volatile helper / a foreign task reacts to '
+                  '`await scope` by spawning a child of duration in [0,20]'))
